@@ -25,12 +25,18 @@
                           (repaired in /repo: the peer and the proxies are checked as well)
      XffUntrimmed       - Address::from_headers parses the comma-separated entries without trimming,
                           so an entry written with a space after the comma is skipped
+                          (repaired in /repo by the C02 work: entries are trimmed)
+     MappedPeerUnmatched- addresses were compared by representation: an IPv4 client of a dual-stack
+                          listener appears as ::ffff:a.b.c.d, equal to no IPv4 list entry, so a listed
+                          client was neither dropped nor refused (repaired in /repo: canonical forms)
    the others are plausible regressions used to show that the invariants are not vacuous. *)
 EXTENDS Naturals, Sequences, FiniteSets, TLC
 
 CONSTANTS
   Addrs,     \* the addresses of the model: canonical texts of IP addresses (strings)
   Peers,     \* \subseteq Addrs: the source addresses clients connect from
+  DualStackPeers, \* \subseteq Peers: IPv4 clients that reach the server through a dual-stack listener
+             \* (address "::"), whose peer_addr() is therefore the IPv4-mapped form ::ffff:a.b.c.d
   Garbage,   \* X-Forwarded-For entries that are not IP addresses (strings, disjoint from Addrs)
   Lists,     \* the blacklists offered to Init: a set of subsets of Addrs
   MaxXff,    \* maximal number of entries in an X-Forwarded-For value
@@ -38,13 +44,14 @@ CONSTANTS
   Conns,     \* connection slots served concurrently
   Dev        \* deviations switched on
 
-HistoricalDevs == {"ForbiddenTrustsXff", "XffUntrimmed"}
+HistoricalDevs == {"ForbiddenTrustsXff", "XffUntrimmed", "MappedPeerUnmatched"}
 MutantDevs == {"CacheBeforeBlacklist", "ProxyUnchecked", "RedirectUnchecked", "OnlyProxiesChecked",
                "NoConnCondition", "IgnoresXff", "BlockSkipsHandlerCheck"}
 DevNames == HistoricalDevs \cup MutantDevs
 
 ASSUME /\ Dev \subseteq DevNames
        /\ Peers \subseteq Addrs
+       /\ DualStackPeers \subseteq Peers
        /\ Garbage \cap Addrs = {}
        /\ \A l \in Lists : l \subseteq Addrs
 
@@ -95,6 +102,12 @@ Decide(mode, list, peer, x) ==
 (* deviation set D so that generation can evaluate single deviations),     *)
 (* then the state machine that uses them with D = Dev.                     *)
 (***************************************************************************)
+\* the peer address as the comparison sees it: the address itself, or (deviation) its mapped
+\* representation, which is equal to nothing on any list
+MappedForm == "::ffff:0:0/96"
+ASSUME MappedForm \notin Addrs \cup Garbage
+PeerSeen(D, peer) == IF "MappedPeerUnmatched" \in D /\ peer \in DualStackPeers THEN MappedForm ELSE peer
+
 \* IpAddr::from_str on one entry of split(',')
 Parsable(D, e) == IsAddr(e) /\ (("XffUntrimmed" \in D) => ~e.sp)
 
@@ -103,13 +116,14 @@ Parsable(D, e) == IsAddr(e) /\ (("XffUntrimmed" \in D) => ~e.sp)
 FromHeaders(D, peer, x) ==
   LET ps == SelectSeq(x.es, LAMBDA e : Parsable(D, e))
       n  == Len(ps)
-  IN IF ~x.present \/ n = 0 \/ "IgnoresXff" \in D THEN [origin |-> peer, proxies |-> <<>>]
-     ELSE [origin |-> ps[n].a, proxies |-> Append([i \in 1..(n - 1) |-> ps[i].a], peer)]
+      me == PeerSeen(D, peer)
+  IN IF ~x.present \/ n = 0 \/ "IgnoresXff" \in D THEN [origin |-> me, proxies |-> <<>>]
+     ELSE [origin |-> ps[n].a, proxies |-> Append([i \in 1..(n - 1) |-> ps[i].a], me)]
 
 \* server.rs verify_connection: TRUE = the connection is handed to the thread pool
 VerifyConnection(D, cf, peer) ==
   \/ "NoConnCondition" \in D
-  \/ ~(cf.mode = "block" /\ peer \in cf.list)
+  \/ ~(cf.mode = "block" /\ PeerSeen(D, peer) \in cf.list)
 
 \* static.rs blacklist_check / proxy.rs inline check on the parsed address `ad`
 BlacklistHit(D, cf, ad) ==
